@@ -521,7 +521,9 @@ def compare_with_model(ctx, res, wb, k_scheds, results):
                 if of[0] == 'e' and not (c04.same(of[1], mf[1]) and c04.same(of[2], mf[2])):
                     ok = False
                     break
-            if not ok:
+            if not ok and c04.float_text_hidden(wb, sched):
+                res.count('model comparison cut short: text form of a float (consumed by a comparison)')
+            elif not ok:
                 res.drift.append({'workbook': c04.wb_json(wb), 'schedule': [list(x) for x in sched], 'real': obs,
                                   'model': msteps})
             continue
@@ -537,7 +539,9 @@ def compare_with_model(ctx, res, wb, k_scheds, results):
             continue
         real = [o.split('~')[1] for o in obs]
         if len(real) != len(vals) or not all(c04.same(a, b) for a, b in zip(real, vals)):
-            if len(res.drift) < 40:
+            if c04.float_text_hidden(wb, sched):
+                res.count('model comparison cut short: text form of a float (consumed by a comparison)')
+            elif len(res.drift) < 40:
                 res.drift.append({'workbook': c04.wb_json(wb), 'evaluators': k,
                                   'schedule': [list(x) for x in sched], 'real': real, 'model': vals})
 
